@@ -12,7 +12,7 @@ class C20(PropCheck):
     props_file = "Props/C20.v"
     shard = 30
     quick_cases = 330
-    thorough_cases = 4000
+    thorough_cases = 3000
     assumptions = [
         "states produced by the QuTiP solvers and the Hamiltonian QobjEvo evaluated at a time are oracle inputs: "
         "the check is that every stored value is the documented function of the stored state and of H(t)",
